@@ -1,6 +1,8 @@
 import Hive.Model.TypedStore
 import Hive.Model.TypedConc
 import Hive.Model.TypedRef
+import Hive.Model.TypedCode
+import Hive.Gen.C06_Code
 /-!
 # Line-protocol driver state for C06: one `TypedValue[uint64]` (`tv …`), one `TypedValue[*T]` (`tp …`),
 one `TypedStore` (`ts …`) and the
@@ -20,10 +22,27 @@ def parseCsv (s : String) : Option (List Nat) :=
   if s == "-" then some [] else
   (s.splitOn ",").foldr (fun t acc => do let l ← acc; let n ← t.toNat?; pure (n :: l)) (some [])
 
+/-- `tv` lines are answered by the hand-written model **and** by the regenerated method bodies run under the
+statement language's semantics (`Hive/Gen/C06_Code.lean`, re-translated from the working tree on every run).  By
+`C06_code_refines_model` the two agree; if a changed source breaks that proof, the disagreement shows up here on
+the concrete inputs of the run (and the real code is then compared with both). -/
+def stepLineBoth (s : St UInt64) (toks : List String) : St UInt64 × String :=
+  match toks with
+  | "init" :: _ => stepLine s toks
+  | _ =>
+    match parseOp toks with
+    | some (op, F) =>
+      let r := step codec64 s op F
+      let g := Code.execOp Hive.Gen.C06Code.prog codec64 s op F
+      let a := showRes r
+      let b := showRes g
+      (r.st, if a == b then a else a ++ " [translated-code: " ++ b ++ "]")
+    | none => (s, "bad-op")
+
 def dstepLine (s : DState) (toks : List String) : DState × String :=
   match toks with
   | [_, "codec", _] => (s, "ok")   -- codec flavour of the harness (allocating / scratch buffers): no semantic content
-  | "tv" :: rest => let (tv', o) := stepLine s.tv rest; ({ s with tv := tv' }, o)
+  | "tv" :: rest => let (tv', o) := stepLineBoth s.tv rest; ({ s with tv := tv' }, o)
   | "tp" :: rest => let (tp', o) := rstepLine s.tp rest; ({ s with tp := tp' }, o)
   | "ts" :: rest => let (ts', o) := sstepLine s.ts rest; ({ s with ts := ts' }, o)
   | ["conc", "counter", final, incs, gets] =>
